@@ -15,7 +15,7 @@ Definition validb (c : csm F64) (p : vec F64) (a e : float) (o : opts F64) : boo
   Nat.eqb (major c) (minor c) && negb (Nat.eqb (major c) 0) && Nat.eqb (vdim p) (major c)
   && match o_t0 o with Some t0 => Nat.eqb (vdim t0) (major c) | None => true end
   && match o_result_dim o with Some d => Nat.eqb d (major c) | None => true end
-  && negb (PrimFloat.ltb a 0) && negb (PrimFloat.ltb 1 a) && negb (PrimFloat.leb e 0)
+  && PrimFloat.leb 0 a && PrimFloat.leb a 1 && PrimFloat.ltb 0 e
   && (1 <=? eff_freq o)%Z && (0 <=? eff_max o)%Z && (1 <=? eff_min o)%Z.
 
 Definition stop_rule_ok (cc : ccase) (t : vec F64) (k : nat) : bool :=
